@@ -297,6 +297,39 @@ def dataclass_grammars(h: Harness):
             check_spec(h, "extract_grammar[dataclasses]", spec, b)
 
 
+def shared_class_list(h: Harness):
+    """ONE list of classes, kept by the user, handed to several extractions with different start symbols: every extraction sees
+    all of it (the second grammar is the one a fresh copy of the list gives), and the list is the user's -- it is not edited"""
+    from geneticengine.grammar.grammar import extract_grammar
+    C = gram.ClassSpec
+    spec = Spec([C("Stmt", True, None), C("Expr", True, None), C("Lit", False, 1, [("k", "int")]), C("Add", False, 1, [("l", ("cls", 1)), ("r", ("cls", 1))]),
+                 C("Assign", False, 0, [("e", ("cls", 1))]), C("Seq", False, 0, [("a", ("cls", 0)), ("b", ("cls", 0))]),
+                 C("While", False, 0, [("c", ("cls", 1)), ("body", ("cls", 0))])], 0, [2, 3, 4, 5, 6])
+    for expansion in (False, True):
+        b = gram.build(spec)
+        nodes = [b.classes[i] for i in spec.considered]
+        before = list(nodes)
+        stmt, expr = b.classes[0], b.classes[1]
+        for order in ((expr, stmt), (stmt, expr), (expr, expr, stmt)):
+            for k, start in enumerate(order):
+                with warnings.catch_warnings():
+                    warnings.simplefilter("ignore")
+                    g = extract_grammar(nodes, start, expansion)
+                    fresh = extract_grammar(list(before), start, expansion)
+                h.count("shared-class-list:extractions")
+                h.seen(f"shared-list:{expansion}:{[c.__name__ for c in order]}:{k}", nontrivial=k > 0)
+                if [id(c) for c in nodes] != [id(c) for c in before]:
+                    h.fail("extract_grammar", "callers-class-list-modified",
+                           f"extract_grammar edited the list of classes it was given: {[c.__name__ for c in before]} -> {[c.__name__ for c in nodes]}", [expansion, k])
+                    nodes[:] = before
+                mine, theirs = observe(b, g), observe(b, fresh)
+                if mine != theirs or syms(b, g.recursive_prods) != syms(b, fresh.recursive_prods):
+                    h.fail("extract_grammar", "supplied-production-missing",
+                           f"extraction #{k + 1} over ONE list object (start symbols so far {[c.__name__ for c in order[:k + 1]]}, expansion_depthing={expansion}) "
+                           f"reports productions/depths {mine}; the same extraction over a fresh copy of the list reports {theirs}", [expansion, k])
+                    break
+
+
 def shipped(h: Harness):
     import geml.grammars as pkg
     mods = []
@@ -322,6 +355,13 @@ def shipped(h: Harness):
 
 
 CORPUS = [
+    # a production whose fields all have minimum depth 0 -- one of them a Union of a base type and a grammar symbol that is mentioned
+    # NOWHERE else: the symbol and its productions belong to the usable sub-grammar
+    Spec([gram.ClassSpec("A0", True, None), gram.ClassSpec("Const", False, 0, [("v", ("union", "int", ("cls", 2))), ("w", "bool")]),
+          gram.ClassSpec("Param", True, None), gram.ClassSpec("Alpha", False, 2, []), gram.ClassSpec("Beta", False, 2, [("k", "int")]),
+          gram.ClassSpec("Add", False, 0, [("l", ("cls", 0)), ("r", ("cls", 0))])], 0, [1, 3, 4, 5, 2]),
+    Spec([gram.ClassSpec("A0", True, None), gram.ClassSpec("Const", False, 0, [("v", ("list", ("union", "bool", ("cls", 2))))]),
+          gram.ClassSpec("Param", True, None), gram.ClassSpec("Alpha", False, 2, [])], 0, [1, 3, 2]),
     # union of a shallow and a deep alternative; bool field; tuple recursion; list-of-abstract
     Spec([gram.ClassSpec("A0", True, None), gram.ClassSpec("C1", False, 0, [("f0", "int")]),
           gram.ClassSpec("C2", False, 0, [("f0", ("union", ("cls", 1), ("cls", 0)))])], 0, [1, 2]),
@@ -415,4 +455,5 @@ def run(h: Harness):
         b = gram.build(spec)
         check_spec(h, "extract_grammar", spec, b)
     dataclass_grammars(h)
+    shared_class_list(h)
     shipped(h)
